@@ -914,7 +914,7 @@ def run(prop, tier, seed, n_cases, corpus=()):
     while first or remaining > 0:
         k = min(BATCH, remaining)
         batch = (todo if first else []) + [k7_gen.gen_case(rng, ('rotation' if prop == 'C18' and j % 2 == 0 else FAMILY[prop])) for j in range(k)]
-        if prop == 'C14':
+        if prop in ('C14', 'C09'):
             for j, c_ in enumerate(batch):
                 if j % 4 == 3 and 'reserve' not in c_:
                     c_['reserve'] = rng.choice([250000.0, 1000.0, 123456.78])
